@@ -350,6 +350,13 @@ def f_shape_mismatch(it, g, pos, spell):
     else:
         if all(any(p[0] == "return" for p in (t.f.get("params") or [])) for t in _trait_instrs(it)):
             return None     # a quick return replaces the body: member names are not needed and the rule does not apply
+        if _has_kind(it, lambda k: not k.startswith("from")) and g.chance(0.4):
+            # an expression alone does not name the counterpart variant's field for the Into direction
+            mi = g.pick(["into", "map"])      # applicable to every Into kind (through the fallback chain)
+            v = Variant(f"Vm{g.mark()}", "tuple", [Field(None, "i32", [Instr(mi, "map", container=None, member=None, action=f"k{g.mark()}()", braced=True, spelling=spell)])],
+                        [Instr("type_hint", "type_hint", container=None, hint="{}", spelling=spell)])
+            _ins(it.variants, pos, v)
+            return Fault("shape_mismatch", "variant/action_only_into", [re.compile(r"^Member trait instruction #\[" + mi + r"\(\.\.\.\)\] for member 0 should specify corresponding field name of the ")])
         v = Variant(f"Vm{g.mark()}", "tuple", [Field(None, "i32")], [Instr("type_hint", "type_hint", container=None, hint="{}", spelling=spell)])
         _ins(it.variants, pos, v)
         return Fault("shape_mismatch", "variant", [re.compile(r"^Member 0 of a variant " + v.name + r" should have member trait instruction with field name")])
